@@ -142,10 +142,24 @@ def enum_runtime(ctx):
             yield {"mode": "checkseq", "vs": [g, b_]}
             yield {"mode": "checkseq", "vs": [g, good[0], b_]}
     yield {"mode": "checkseq", "vs": good + good}
+    # the same from several threads at once: compatible versions stay compatible
+    for nth in (2, 8):
+        for rep in range(3):
+            yield {"mode": "checkpar", "threads": nth, "rounds": 30000, "rep": rep,
+                   "vs": good + ["%d.%d.%d-rc1" % (have[0], have[1], rep), "%d.0.0" % have[0]]}
 
 
 def run_runtime(case, ctx):
     have = libversion(ctx)
+    if case["mode"] == "checkpar":
+        d = ctx.newdir()
+        try:
+            r = tools.run([ctx.shared["vercheck"], "checkpar", str(case["threads"]), str(case["rounds"])] + case["vs"], cwd=d, cpu_s=120, wall_s=300)
+        finally:
+            ctx.rmdir(d)
+        if r.kind != "ok" or b"returned" not in r.out:
+            raise Violation("%d threads checking the compatible versions %s concurrently (library %s): %s" % (case["threads"], case["vs"], have, r.brief()))
+        return {"nt": True, "cls": ["runtime:concurrent-checks"]}
     if case["mode"] == "checkseq":
         d = ctx.newdir()
         try:
